@@ -28,6 +28,7 @@ Section ProcessProofs.
   Variable run : C -> option R.
   Variable hash : nat -> Z.
   Variable resolve : dir -> nat -> nat.
+  Variable opendir : dir -> dir -> dir.
   Variable runh : nat -> C -> option R.
   Variable K : Type.
   Variable keq : K -> K -> bool.
@@ -35,11 +36,12 @@ Section ProcessProofs.
 
   Notation state := (state C R K).
   Notation event := (event C R K).
-  Notation client_get := (client_get C R run hash resolve K keq keyof).
+  Notation client_get := (client_get C R run hash resolve opendir K keq keyof).
   Notation cli_run := (cli_run C R run hash resolve K).
-  Notation hip_get := (hip_get C R resolve runh K).
-  Notation step := (step C R run hash resolve runh K keq keyof).
-  Notation trace := (trace C R run hash resolve runh K keq keyof).
+  Notation hip_get := (hip_get C R resolve opendir runh K).
+  Notation step := (step C R run hash resolve opendir runh K keq keyof).
+  Notation trace := (trace C R run hash resolve opendir runh K keq keyof).
+  Notation srcdir st := (opendir DSrc (cwd st)).
   Notation expected := (expected C R run).
   Notation expected_with := (expected_with C R).
   Notation key p st := (keyof p (fs_lookup (resolve (cwd st) p) (files st))).
@@ -51,10 +53,10 @@ Section ProcessProofs.
                      /\ cache_lookup keq (key p st) (cache cl) = Some r /\ client_get fixed st ci p = (st, Returned r true))
     \/ (exists cl, nth_error (clients st) ci = Some cl
                    /\ (caching cl = true -> cache_lookup keq (key p st) (cache cl) = None)
-                   /\ ((expected (files st) (resolve DSrc p) = None
+                   /\ ((expected (files st) (resolve (srcdir st) p) = None
                         /\ client_get fixed st ci p =
                            (if fixed then st else mkState DSrc [AEmpty; AIn p; AOut (hash p)] (files st) (clients st), Raised))
-                       \/ (exists r, expected (files st) (resolve DSrc p) = Some r
+                       \/ (exists r, expected (files st) (resolve (srcdir st) p) = Some r
                             /\ client_get fixed st ci p =
                                (mkState (cwd st) (argv st) (files st)
                                   (replace_nth ci (if caching cl then mkClient true ((key p st, r) :: cache cl) else cl)
@@ -67,13 +69,13 @@ Section ProcessProofs.
     - destruct (cache_lookup keq (key p st) (cache cl)) as [r|] eqn:Hl.
       + left. exists cl, r. auto.
       + right. exists cl. split; [reflexivity|]. split; [auto|].
-        unfold Process.main_run, Process.prog_run. simpl. fold (expected (files st) (resolve DSrc p)).
-        destruct (expected (files st) (resolve DSrc p)) as [r|] eqn:He.
+        unfold Process.main_run, Process.prog_run. simpl. fold (expected (files st) (resolve (srcdir st) p)).
+        destruct (expected (files st) (resolve (srcdir st) p)) as [r|] eqn:He.
         * right. exists r. split; [reflexivity|]. destruct st; simpl in *; rewrite ?Hc; reflexivity.
         * left. split; [reflexivity|]. destruct fixed; destruct st; reflexivity.
     - right. exists cl. split; [reflexivity|]. split; [intros X; congruence|].
-      unfold Process.main_run, Process.prog_run. simpl. fold (expected (files st) (resolve DSrc p)).
-      destruct (expected (files st) (resolve DSrc p)) as [r|] eqn:He.
+      unfold Process.main_run, Process.prog_run. simpl. fold (expected (files st) (resolve (srcdir st) p)).
+      destruct (expected (files st) (resolve (srcdir st) p)) as [r|] eqn:He.
       + right. exists r. split; [reflexivity|]. destruct st; simpl in *; rewrite ?Hc; reflexivity.
       + left. split; [reflexivity|]. destruct fixed; destruct st; reflexivity.
   Qed.
@@ -87,7 +89,7 @@ Section ProcessProofs.
   (* a HIP-RA request leaves the whole state as it was, whether it returns or raises *)
   Lemma hip_get_spec st k p :
     hip_get st k p =
-      (st, match expected_with (runh k) (files st) (resolve (DPkg k) p) with Some r => Returned r false | None => Raised end).
+      (st, match expected_with (runh k) (files st) (resolve (opendir (DPkg k) (cwd st)) p) with Some r => Returned r false | None => Raised end).
   Proof. unfold Process.hip_get, Process.prog_run. simpl. destruct st; reflexivity. Qed.
 
   (* ---------- RESTORE ---------- *)
@@ -163,8 +165,8 @@ Section ProcessProofs.
 
   Theorem final_restore : forall ops st,
     forallb only_runs_and_files ops = true ->
-    cwd (final C R run hash resolve runh K keq keyof true st ops) = cwd st
-    /\ argv (final C R run hash resolve runh K keq keyof true st ops) = argv st.
+    cwd (final C R run hash resolve opendir runh K keq keyof true st ops) = cwd st
+    /\ argv (final C R run hash resolve opendir runh K keq keyof true st ops) = argv st.
   Proof.
     unfold final. induction ops as [|o ops IH]; intros st H; simpl; [auto|].
     simpl in H. apply andb_true_iff in H as [Ho H].
@@ -176,7 +178,7 @@ Section ProcessProofs.
   Qed.
 
   (* ---------- Monte-Carlo work packages ---------- *)
-  Notation final := (final C R run hash resolve runh K keq keyof).
+  Notation final := (final C R run hash resolve opendir runh K keq keyof).
   Definition outs (fixed : bool) (st : state) (ops : list (op C)) : list (outcome R) := map (@eout C R K) (trace fixed st ops).
 
   Lemma final_cons fixed st o ops : final fixed st (o :: ops) = final fixed (fst (step fixed st o)) ops.
@@ -215,7 +217,7 @@ Section ProcessProofs.
     set (st2 := Process.set_clients C R K st1 (clients st1 ++ [mkClient true []])).
     assert (Hn : nth_error (clients st2) (length (clients st)) = Some (mkClient true [])).
     { subst st2 st1. simpl. apply nth_error_last. }
-    assert (He : expected (files st2) (resolve DSrc p) = run c).
+    assert (He : expected (files st2) (resolve (srcdir st2) p) = run c).
     { subst st2 st1. rewrite Ha. unfold Process.expected, Process.expected_with. simpl. now rewrite Nat.eqb_refl. }
     destruct (client_get_cases true st2 (length (clients st)) p)
       as [[Hx _]|[(cl & r & Hx & _ & Hl & _)|(cl & Hx & _ & [[Hr E]|(r & Hr & E)])]].
@@ -304,8 +306,8 @@ Section ProcessProofs.
   (* the request path names the same file for the caller and for the program (which chdirs to its own directory
      before opening it): true of every absolute path *)
   Definition resolves_same (e : event) : Prop :=
-    (forall ci p, eop e = Get ci p -> resolve (cwd (before e)) p = resolve DSrc p)
-    /\ (forall k p, eop e = HipGet k p -> resolve (cwd (before e)) p = resolve (DPkg k) p).
+    (forall ci p, eop e = Get ci p -> resolve (cwd (before e)) p = resolve (opendir DSrc (cwd (before e))) p)
+    /\ (forall k p, eop e = HipGet k p -> resolve (cwd (before e)) p = resolve (opendir (DPkg k) (cwd (before e))) p).
 
   Lemma cli_refines st p :
     refines_event (mkEvent st (Cli p) (fst (cli_run st p)) (snd (cli_run st p))).
@@ -316,12 +318,12 @@ Section ProcessProofs.
   Qed.
 
   Lemma hip_refines st k p :
-    resolve (cwd st) p = resolve (DPkg k) p ->
+    resolve (cwd st) p = resolve (opendir (DPkg k) (cwd st)) p ->
     refines_event (mkEvent st (HipGet k p) (fst (hip_get st k p)) (snd (hip_get st k p))).
   Proof.
     intros Hrs. rewrite hip_get_spec. intros orc q r h Hq H. simpl in Hq, H |- *. inversion Hq; subst orc q.
     rewrite Hrs.
-    destruct (expected_with (runh k) (files st) (resolve (DPkg k) p)) as [r0|] eqn:He; inversion H; subst; reflexivity.
+    destruct (expected_with (runh k) (files st) (resolve (opendir (DPkg k) (cwd st)) p)) as [r0|] eqn:He; inversion H; subst; reflexivity.
   Qed.
 
   (* with caching off there is nothing to go stale: no hypothesis on writes, none on the key *)
@@ -445,6 +447,15 @@ Section ProcessProofs.
     Forall resolves_same (trace fixed (init d a f) ops) -> Forall refines_event (trace fixed (init d a f) ops).
   Proof. intros Hks ops d a f. apply trace_refines_sound_key; [exact Hks|apply init_entries_ok]. Qed.
 
+  (* opening the request path against the caller's directory => the same, whatever the paths *)
+  Lemma caller_dir_resolves_same fixed : (forall pkg d, opendir pkg d = d) -> forall ops st,
+    Forall resolves_same (trace fixed st ops).
+  Proof.
+    intros Ho. induction ops as [|o ops IH]; intros st; [constructor|].
+    rewrite trace_cons. constructor; [|apply IH].
+    split; intros; rewrite Ho; reflexivity.
+  Qed.
+
   (* every path absolute => every event resolves the same for caller and program *)
   Lemma absolute_resolves_same fixed : (forall d p, resolve d p = p) -> forall ops st,
     Forall resolves_same (trace fixed st ops).
@@ -465,12 +476,12 @@ Proof.
   now rewrite (Hc x y H).
 Qed.
 
-Theorem trace_refines_content_key C R (run : C -> option R) hash resolve runh (ceq : C -> C -> bool) fixed :
+Theorem trace_refines_content_key C R (run : C -> option R) hash resolve opendir runh (ceq : C -> C -> bool) fixed :
   (forall a b, ceq a b = true -> a = b) -> forall ops d a f,
-  Forall (resolves_same C R resolve (Z * option C))
-         (trace C R run hash resolve runh (Z * option C) (content_keq ceq) (content_key hash) fixed (init d a f) ops) ->
+  Forall (resolves_same C R resolve opendir (Z * option C))
+         (trace C R run hash resolve opendir runh (Z * option C) (content_keq ceq) (content_key hash) fixed (init d a f) ops) ->
   Forall (refines_event C R run resolve runh (Z * option C))
-         (trace C R run hash resolve runh (Z * option C) (content_keq ceq) (content_key hash) fixed (init d a f) ops).
+         (trace C R run hash resolve opendir runh (Z * option C) (content_keq ceq) (content_key hash) fixed (init d a f) ops).
 Proof.
   intros Hc ops d a f. apply trace_refines_sound_key; [now apply content_key_sound|apply init_entries_ok].
 Qed.
@@ -485,13 +496,13 @@ Section PathKeyed.
 
   Notation state := (state C R Z).
   Notation event := (event C R Z).
-  Notation step := (step C R run hash resolve runh Z Z.eqb (path_key hash)).
-  Notation trace := (trace C R run hash resolve runh Z Z.eqb (path_key hash)).
+  Notation step := (step C R run hash resolve code_opendir runh Z Z.eqb (path_key hash)).
+  Notation trace := (trace C R run hash resolve code_opendir runh Z Z.eqb (path_key hash)).
   Notation expected := (expected C R run).
   Notation refines_event := (refines_event C R run resolve runh Z).
-  Notation resolves_same := (resolves_same C R resolve Z).
+  Notation resolves_same := (resolves_same C R resolve code_opendir Z).
   Notation cli_run := (cli_run C R run hash resolve Z).
-  Notation hip_get := (hip_get C R resolve runh Z).
+  Notation hip_get := (hip_get C R resolve code_opendir runh Z).
 
   (* no file is written or deleted while a caching client holds a result under the key of a path that names it *)
   Definition write_safe (e : event) : Prop :=
@@ -524,14 +535,14 @@ Section PathKeyed.
     refines_event (mkEvent st o (fst (step fixed st o)) (snd (step fixed st o)))
     /\ fresh ps (fst (step fixed st o)).
   Proof.
-    intros Hinj Hfr Hin Hws [Hrg Hrh]. simpl in Hrg, Hrh. destruct o as [ci p|p c|p|d|a|b|p|k p];
+    intros Hinj Hfr Hin Hws [Hrg Hrh]. simpl in Hrg, Hrh. unfold code_opendir in Hrg, Hrh. destruct o as [ci p|p c|p|d|a|b|p|k p];
       [simpl|simpl|simpl|simpl|simpl|simpl|change (step fixed st (Cli p)) with (cli_run st p)
        |change (step fixed st (HipGet k p)) with (hip_get st k p)].
     - (* Get *)
       specialize (Hin ci p eq_refl). specialize (Hrg ci p eq_refl).
-      destruct (client_get_cases C R run hash resolve Z Z.eqb (path_key hash) fixed st ci p)
+      destruct (client_get_cases C R run hash resolve code_opendir Z Z.eqb (path_key hash) fixed st ci p)
         as [[_ E]|[(cl & r & Hn & Hc & Hl & E)|(cl & Hn & Hmiss & [[He E]|(r & He & E)])]];
-        unfold path_key in *; rewrite E; simpl.
+        unfold path_key, code_opendir in *; rewrite E; simpl.
       + split; [|exact Hfr]. intros orc q r h _ H. discriminate.
       + split; [|exact Hfr]. intros orc q r' h Hq H. simpl in Hq, H |- *. inversion Hq; subst orc q. inversion H; subst r'.
         destruct (Hfr cl (nth_error_In _ _ Hn) Hc _ _ Hl) as (p' & Hp' & Hh & Hex).
@@ -654,7 +665,7 @@ Qed.
 
 (* a hash collision between two requested paths has the same effect (why [inj_on] is a hypothesis) *)
 Lemma cache_collision_witness :
-  exists e p r h, In e (trace nat nat (crun [0; 1]) (fun _ => 0%Z) (cresolve []) (crunh []) Z Z.eqb (path_key (fun _ => 0%Z))
+  exists e p r h, In e (trace nat nat (crun [0; 1]) (fun _ => 0%Z) (cresolve []) code_opendir (crunh []) Z Z.eqb (path_key (fun _ => 0%Z))
                           true (init (DUser 0) [] [])
                           [NewClient true; Write 0 0; Write 1 1; Get 0 0; Get 0 1])
             /\ eop e = Get 0 p /\ eout e = Returned r h
